@@ -190,6 +190,10 @@ theorem Ret.bind {φ : β → Prop} {m : HM α} {f : α → HM β} (hf : ∀ a, 
 /-- neither an SA payload nor an error notification -/
 def Quiet (p : Payload) : Prop := p.ptype ≠ ptSA ∧ ∀ a t b c, p.body = .notify a t b c → 16384 ≤ t
 
+/-- … nor a selector payload, nor the transport-mode notification -/
+def Plain (p : Payload) : Prop :=
+  Quiet p ∧ p.ptype ≠ ptTSi ∧ p.ptype ≠ ptTSr ∧ ∀ a t b c, p.body = .notify a t b c → t ≠ nUSE_TRANSPORT_MODE
+
 theorem quiet_nonce (n : Bytes) : Quiet (mkP ptNONCE (.nonce n)) :=
   ⟨by simp [mkP, ptNONCE, ptSA], by intro a t b c h; simp [mkP] at h⟩
 theorem quiet_ke (g : Nat) (d : Bytes) : Quiet (mkP ptKE (.ke g d)) :=
@@ -197,16 +201,27 @@ theorem quiet_ke (g : Nat) (d : Bytes) : Quiet (mkP ptKE (.ke g d)) :=
 theorem quiet_status (proto t : Nat) (spi data : Bytes) (ht : 16384 ≤ t) : Quiet (mkNotify proto t spi data) :=
   ⟨by simp [mkNotify, ptNOTIFY, ptSA], by intro a t' b c h; simp only [mkNotify, Body.notify.injEq] at h; omega⟩
 
+theorem plain_nonce (n : Bytes) : Plain (mkP ptNONCE (.nonce n)) :=
+  ⟨quiet_nonce n, by simp [mkP, ptNONCE, ptTSi], by simp [mkP, ptNONCE, ptTSr], by intro a t b c h; simp [mkP] at h⟩
+theorem plain_ke (g : Nat) (d : Bytes) : Plain (mkP ptKE (.ke g d)) :=
+  ⟨quiet_ke g d, by simp [mkP, ptKE, ptTSi], by simp [mkP, ptKE, ptTSr], by intro a t b c h; simp [mkP] at h⟩
+theorem plain_rekey (proto : Nat) (spi data : Bytes) : Plain (mkNotify proto nREKEY_SA spi data) :=
+  ⟨quiet_status _ _ _ _ (by decide), by simp [mkNotify, ptNOTIFY, ptTSi], by simp [mkNotify, ptNOTIFY, ptTSr],
+   by intro a t b c h; simp only [mkNotify, Body.notify.injEq] at h; rw [← h.2.1]; decide⟩
+theorem all_plain_nil : ∀ q ∈ ([] : List Payload), Plain q := by intro q hq; cases hq
+theorem all_plain_one {p : Payload} (h : Plain p) : ∀ q ∈ [p], Plain q := by
+  intro q hq; simp only [List.mem_singleton] at hq; subst hq; exact h
+
 theorem all_quiet_nil : ∀ q ∈ ([] : List Payload), Quiet q := by intro q hq; cases hq
 theorem all_quiet_one {p : Payload} (h : Quiet p) : ∀ q ∈ [p], Quiet q := by
   intro q hq; simp only [List.mem_singleton] at hq; subst hq; exact h
 
-theorem childNonce_ret (m : Msg) : Ret (fun l => ∀ q ∈ l, Quiet q) (childNonce m) := by
+theorem childNonce_ret (m : Msg) : Ret (fun l => ∀ q ∈ l, Plain q) (childNonce m) := by
   unfold childNonce; split
-  · exact Ret.pure _ all_quiet_nil
-  · exact Ret.bind (fun _ => Ret.bind (fun n => Ret.pure _ (all_quiet_one (quiet_nonce n))))
+  · exact Ret.pure _ all_plain_nil
+  · exact Ret.bind (fun _ => Ret.bind (fun n => Ret.pure _ (all_plain_one (plain_nonce n))))
 
-theorem childKe_ret (m : Msg) (p : Proposal) : Ret (fun l => ∀ q ∈ l, Quiet q) (childKe m p) := by
+theorem childKe_ret (m : Msg) (p : Proposal) : Ret (fun l => ∀ q ∈ l, Plain q) (childKe m p) := by
   unfold childKe
   split
   · apply Ret.bind; intro kg
@@ -214,16 +229,16 @@ theorem childKe_ret (m : Msg) (p : Proposal) : Ret (fun l => ∀ q ∈ l, Quiet 
     split
     · exact Ret.raise _
     · split
-      · exact Ret.bind (fun _ => Ret.bind (fun _ => Ret.bind (fun _ => Ret.pure _ (all_quiet_one (quiet_ke _ _)))))
-      · exact Ret.bind (fun _ => Ret.bind (fun _ => Ret.pure _ (all_quiet_one (quiet_ke _ _))))
-  · exact Ret.pure _ all_quiet_nil
+      · exact Ret.bind (fun _ => Ret.bind (fun _ => Ret.bind (fun _ => Ret.pure _ (all_plain_one (plain_ke _ _)))))
+      · exact Ret.bind (fun _ => Ret.bind (fun _ => Ret.pure _ (all_plain_one (plain_ke _ _))))
+  · exact Ret.pure _ all_plain_nil
 
 theorem childRekeyPrelude_ret (m : Msg) (sa : List Proposal) (a b : List TS) :
-    Ret (fun l => ∀ q ∈ l, Quiet q) (childRekeyPrelude m sa a b) := by
+    Ret (fun l => ∀ q ∈ l, Plain q) (childRekeyPrelude m sa a b) := by
   unfold childRekeyPrelude
   apply Ret.bind; intro me
   split
-  · exact Ret.pure _ all_quiet_nil
+  · exact Ret.pure _ all_plain_nil
   · split
     · exact Ret.raise _
     · dsimp only
@@ -231,7 +246,7 @@ theorem childRekeyPrelude_ret (m : Msg) (sa : List Proposal) (a b : List TS) :
         | split
         | exact Ret.raise _
         | exact Ret.raise_bind _ _
-        | exact Ret.pure _ (all_quiet_one (quiet_status _ nREKEY_SA _ _ (by decide))))
+        | exact Ret.pure _ (all_plain_one (plain_rekey _ _ _)))
 
 /-! ### derived rules that keep state-independent facts in the context -/
 
@@ -339,25 +354,54 @@ theorem selectBest_link (mine : Proposal) (ps : List Proposal) (r : Proposal) (h
       obtain ⟨q, hq, hw⟩ := ih h
       exact ⟨q, by simp [hq], hw⟩
 
+/-- the reply to a granted request, in full: … transport-mode notification exactly when the CHILD_SA is in transport mode …, the
+    proposal with the responder's SPI and the suite of its record, one selector each way: the record's, the other way round -/
+def ReplyShape (payloads : List Payload) (cb : Child) : Prop :=
+  ∃ pre modeN ke p t1 t2,
+    payloads = pre ++ modeN ++ ke ++ [mkP ptSA (.sa [p]), mkP ptTSi (.ts [t1]), mkP ptTSr (.ts [t2])] ∧
+    (∀ q ∈ pre, Plain q) ∧ (∀ q ∈ ke, Plain q) ∧
+    modeN = (if cb.mode = 0 then [mkNotify 0 nUSE_TRANSPORT_MODE [] []] else []) ∧ (cb.mode = 0 ∨ cb.mode = 1) ∧
+    p.spi = cb.inSpi ∧ p.proto = cb.proposal.proto ∧ p.transforms = cb.proposal.transforms ∧ cb.tsi = [t2] ∧ cb.tsr = [t1]
+
+theorem quiet_transport : Quiet (mkNotify 0 nUSE_TRANSPORT_MODE [] []) := quiet_status _ _ _ _ (by decide)
+
+theorem ReplyShape.good {payloads : List Payload} {cb : Child} (h : ReplyShape payloads cb) :
+    GoodReply payloads cb.inSpi cb.proposal.proto := by
+  obtain ⟨pre, modeN, ke, p, t1, t2, rfl, hpre, hke, hm, _, h1, h2, _⟩ := h
+  refine ⟨pre ++ modeN ++ ke, p, [mkP ptTSi (.ts [t1]), mkP ptTSr (.ts [t2])], by simp, h1, h2, ?_, ?_⟩
+  · intro q hq
+    simp only [List.mem_append] at hq
+    rcases hq with (hq | hq) | hq
+    · exact (hpre q hq).1
+    · rw [hm] at hq; split at hq
+      · simp only [List.mem_singleton] at hq; subst hq; exact quiet_transport
+      · cases hq
+    · exact (hke q hq).1
+  · intro q hq
+    simp only [List.mem_cons, List.mem_nil_iff, or_false] at hq
+    rcases hq with rfl | rfl <;> simp [mkP, ptTSi, ptTSr, ptNOTIFY, ptSA]
+
 /-- what the responder's negotiation leaves behind when it returns: exactly one more CHILD_SA, whose outbound SPI and protocol are
-    those of a proposal of the request and whose inbound SPI and protocol are in the reply; when it raises: nothing -/
+    those of a proposal of the request and which the reply describes; when it raises: nothing -/
 def Granted (request : Msg) (x : XSa) (payloads : List Payload) (s : HSt) : Prop :=
   ∃ cb, s.me = x.setKids (x.ext.kids ++ [cb]) ∧
     (∃ sa p, paySA request true = .ok sa ∧ p ∈ sa ∧ cb.outSpi = p.spi ∧ cb.proposal.proto = p.proto) ∧
-    GoodReply payloads cb.inSpi cb.proposal.proto
+    GoodReply payloads cb.inSpi cb.proposal.proto ∧ ReplyShape payloads cb
 
 theorem childCreateResponder_tri (x : XSa) (chosen : Proposal) (ctsr ctsi : TS) (mode : Nat) (pol : Protect) :
     Tri (MeIs x) (childCreateResponder chosen ctsr ctsi mode pol)
-      (fun child s => s.me = x.setKids (x.ext.kids ++ [child]) ∧ child.outSpi = chosen.spi ∧ child.proposal.proto = chosen.proto)
+      (fun child s => s.me = x.setKids (x.ext.kids ++ [child]) ∧ child.outSpi = chosen.spi ∧ child.proposal.proto = chosen.proto ∧
+        child.proposal.transforms = chosen.transforms ∧ child.tsi = [ctsr] ∧ child.tsr = [ctsi] ∧ child.mode = mode)
       (fun _ s => s.me = x) := by
   unfold childCreateResponder
   refine Tri.bind_quiet (fun _ => True) (popBytes_me x) (fun _ _ _ _ => trivial) ?_ (fun _ _ h => h); intro spi _
   apply Tri.bind (trackChild_tri x _); intro _
-  exact Tri.pure _ (fun s h => ⟨h, rfl, rfl⟩)
+  exact Tri.pure _ (fun s h => ⟨h, rfl, rfl, rfl, rfl, rfl, rfl⟩)
 
 theorem reqTail_tri (request : Msg) (x : XSa) (sa : List Proposal) (hsa : paySA request true = .ok sa)
-    (pre nonce modeN : List Payload) (hpre : ∀ q ∈ pre, Quiet q) (hnonce : ∀ q ∈ nonce, Quiet q) (hmode : ∀ q ∈ modeN, Quiet q)
-    (mine : Proposal) (ctsr ctsi : TS) (mode : Nat) (pol : Protect) :
+    (pre nonce modeN : List Payload) (hpre : ∀ q ∈ pre, Plain q) (hnonce : ∀ q ∈ nonce, Plain q)
+    (mine : Proposal) (ctsr ctsi : TS) (mode : Nat) (pol : Protect)
+    (hmode : modeN = (if mode = 0 then [mkNotify 0 nUSE_TRANSPORT_MODE [] []] else [])) (hm01 : mode = 0 ∨ mode = 1) :
     Tri (MeIs x)
       (match selectBest mine sa with
        | none => HM.raise excNoProposal
@@ -373,20 +417,17 @@ theorem reqTail_tri (request : Msg) (x : XSa) (sa : List Proposal) (hsa : paySA 
     refine Tri.bind_quiet _ (childKe_me x _ _) (childKe_ret _ _) ?_ (fun _ _ h => h); intro ke hke
     apply Tri.bind (childCreateResponder_tri x _ _ _ _ _); intro child
     apply Tri.pure
-    intro s ⟨h1, h2, h3⟩
+    intro s ⟨h1, h2, h3, h4, h5, h6, h7⟩
     obtain ⟨p, hp, hspi, hproto⟩ := selectBest_link mine sa chosen hsel
-    refine ⟨child, h1, ⟨sa, p, hsa, hp, by rw [h2, hspi], by rw [h3, hproto]⟩, ?_⟩
-    refine ⟨pre ++ nonce ++ modeN ++ ke, { chosen with spi := child.inSpi }, [mkP ptTSi (.ts [ctsi]), mkP ptTSr (.ts [ctsr])], by simp, rfl, h3.symm, ?_, ?_⟩
-    · intro q hq
-      simp only [List.mem_append] at hq
-      rcases hq with ((hq | hq) | hq) | hq
+    have hshape : ReplyShape (pre ++ nonce ++ modeN ++ ke ++
+        [mkP ptSA (.sa [{ chosen with spi := child.inSpi }]), mkP ptTSi (.ts [ctsi]), mkP ptTSr (.ts [ctsr])]) child := by
+      refine ⟨pre ++ nonce, modeN, ke, { chosen with spi := child.inSpi }, ctsi, ctsr, rfl, ?_, hke, by rw [h7]; exact hmode,
+        by rw [h7]; exact hm01, rfl, h3.symm, h4.symm, h5, h6⟩
+      intro q hq
+      rcases List.mem_append.mp hq with hq | hq
       · exact hpre q hq
       · exact hnonce q hq
-      · exact hmode q hq
-      · exact hke q hq
-    · intro q hq
-      simp only [List.mem_cons, List.mem_nil_iff, or_false] at hq
-      rcases hq with rfl | rfl <;> simp [mkP, ptTSi, ptTSr, ptNOTIFY, ptSA]
+    exact ⟨child, h1, ⟨sa, p, hsa, hp, by rw [h2, hspi], by rw [h3, hproto]⟩, hshape.good, hshape⟩
 
 theorem childNegotiationReqBody_tri (request : Msg) (x : XSa) :
     Tri (MeIs x) (childNegotiationReqBody request) (Granted request x) (fun _ s => s.me = x) := by
@@ -406,8 +447,8 @@ theorem childNegotiationReqBody_tri (request : Msg) (x : XSa) :
       · exact Tri.raise _ (fun _ h => h)
       · repeat' (first
           | exact Tri.raise_bind _ (fun _ h => h)
-          | exact reqTail_tri request x sa hsa pre nonce _ hpre hnonce all_quiet_nil _ _ _ _ _
-          | exact reqTail_tri request x sa hsa pre nonce _ hpre hnonce (all_quiet_one (quiet_status _ nUSE_TRANSPORT_MODE _ _ (by decide))) _ _ _ _ _
+          | exact reqTail_tri request x sa hsa pre nonce _ hpre hnonce _ _ _ 1 _ rfl (Or.inr rfl)
+          | exact reqTail_tri request x sa hsa pre nonce _ hpre hnonce _ _ _ 0 _ rfl (Or.inl rfl)
           | split)
 
 /-- the reply to a CHILD_SA request that was refused: one notification and nothing else -/
@@ -488,14 +529,21 @@ theorem ikeKeeps_of {y : XSa} {e : Exc} {s : HSt} (h : MeIs y s) : IkeKeeps y e 
 def childOf (creating : Child) (chosen : Proposal) (tsi tsr : TS) : Child :=
   { creating with outSpi := chosen.spi, proposal := chosen, tsi := [tsi], tsr := [tsr] }
 
+/-- the mode the reply asks for: transport exactly when it carries USE_TRANSPORT_MODE -/
+def respMode (response : Msg) : Nat := if ¬ (getNotifies response nUSE_TRANSPORT_MODE true).isEmpty then 0 else 1
+
 def CreatedX (y : XSa) (c0 : Child) (response : Msg) (z : XSa) : Prop :=
   ∃ p rest child, paySA response true = .ok (p :: rest) ∧ child.inSpi = c0.inSpi ∧ child.outSpi = p.spi ∧ child.proposal = p ∧
+    (∃ t1 r1 t2 r2, payTS response ptTSi true = .ok (t1 :: r1) ∧ payTS response ptTSr true = .ok (t2 :: r2) ∧
+      child.tsi = [t1] ∧ child.tsr = [t2] ∧ child.mode = respMode response) ∧
     z = ({ y with ext := { y.ext with creating := some child } } : XSa).setKids (y.ext.kids ++ [child])
 
 def Created (y : XSa) (c0 : Child) (response : Msg) (s : HSt) : Prop := CreatedX y c0 response s.me
 
 theorem resFinal_tri (response : Msg) (y : XSa) (c0 : Child) (chosen : Proposal) (rest : List Proposal)
-    (hsa : paySA response true = .ok (chosen :: rest)) (tsi tsr : TS) :
+    (hsa : paySA response true = .ok (chosen :: rest)) (tsi tsr : TS) (r1 r2 : List TS)
+    (htsi : payTS response ptTSi true = .ok (tsi :: r1)) (htsr : payTS response ptTSr true = .ok (tsr :: r2))
+    (hmode : ¬ c0.mode ≠ respMode response) :
     Tri (MeIs y)
       (do modExt fun e => { e with creating := some (childOf c0 chosen tsi tsr) }
           trackChild (childOf c0 chosen tsi tsr))
@@ -508,7 +556,8 @@ theorem resFinal_tri (response : Msg) (y : XSa) (c0 : Child) (chosen : Proposal)
   · intro _
     refine (trackChild_tri2 _ _).conseq (fun _ h => h) ?_ (fun e s h hi => absurd hi h)
     intro _ s hs
-    exact ⟨chosen, rest, childOf c0 chosen tsi tsr, hsa, rfl, rfl, rfl, hs⟩
+    exact ⟨chosen, rest, childOf c0 chosen tsi tsr, hsa, rfl, rfl, rfl,
+      ⟨tsi, r1, tsr, r2, htsi, htsr, rfl, rfl, Decidable.not_not.mp hmode⟩, hs⟩
 
 /-- what the initiator's negotiation does with a reply: when it returns, the reply carried an SA payload and exactly one CHILD_SA was
     added — ours as to the inbound SPI, the first proposal's as to outbound SPI and suite; when it raises an IkeSaError nothing
@@ -526,7 +575,7 @@ theorem childNegotiationResBody_tri (response : Msg) (y : XSa) (c0 : Child) (hc 
     | exact Tri.raise_bind _ (fun _ h => ikeKeeps_of h)
     | (refine Tri.bind_liftE ?_ (fun _ _ _ h => ikeKeeps_of h); intro _ _)
     | (refine Tri.bind_quiet (fun _ => True) (popOk_me y) popOk_ret ?_ (fun _ _ h => ikeKeeps_of h); intro _ _)
-    | exact resFinal_tri response y c0 _ _ hsa _ _
+    | exact resFinal_tri response y c0 _ _ hsa _ _ _ _ htsi htsr (by unfold respMode; split <;> first | assumption | contradiction)
     | extract_lets
     | split
     | simp -zeta +zetaDelta only [])
@@ -624,7 +673,7 @@ theorem handleInvalidKe_tri (y : XSa) (data : Bytes) :
 
 theorem createdX_frame {y : XSa} {c0 : Child} {response : Msg} {z : XSa} (h : CreatedX y c0 response z) :
     z.core.st = y.core.st ∧ z.ext.rekeying = y.ext.rekeying := by
-  obtain ⟨p, rest, child, _, _, _, _, hz⟩ := h
+  obtain ⟨p, rest, child, _, _, _, _, _, hz⟩ := h
   subst hz; exact ⟨rfl, rfl⟩
 
 theorem childSaResponse_tri (response : Msg) (y0 : XSa) (c0 : Child) (hc : y0.ext.creating = some c0) :
@@ -767,6 +816,109 @@ theorem goodReply_hasErr (core : SaCore) (payloads : List Payload) (spi : Bytes)
     goodReply_notifies core payloads spi proto h nNO_ADDITIONAL_SAS (by decide)]
   decide
 
+/-- the selection function of `get_notifies` -/
+def notifyPick (nt : Nat) (p : Payload) : Option (Nat × Bytes × Bytes) :=
+  if p.ptype = ptNOTIFY then
+    match p.body with
+    | .notify proto t spi data => if t = nt then some (proto, spi, data) else none
+    | _ => none
+  else none
+
+theorem getNotifies_eq (m : Msg) (nt : Nat) (e : Bool) : getNotifies m nt e = (payloadsOf m e).filterMap (notifyPick nt) := rfl
+
+theorem find_first (T : Nat) (l1 l2 : List Payload) (x : Payload) (hx : x.ptype = T) (h1 : ∀ q ∈ l1, q.ptype ≠ T) :
+    (l1 ++ x :: l2).find? (fun q => q.ptype = T) = some x := by
+  induction l1 with
+  | nil => simp [hx]
+  | cons q rest ih =>
+    have hq : ¬ q.ptype = T := h1 q (by simp)
+    simp only [List.cons_append, List.find?_cons, hq, decide_false]
+    exact ih (fun y hy => h1 y (by simp [hy]))
+
+theorem replyShape_enc (core : SaCore) (payloads : List Payload) : (mkResponse core 36 payloads).enc = payloads := rfl
+
+/-- what the initiator reads in a reply of that shape: the suite, the selectors (ours first), the mode -/
+theorem replyShape_read (core : SaCore) (payloads : List Payload) (cb : Child) (h : ReplyShape payloads cb) :
+    (∃ p, paySA (mkResponse core 36 payloads) true = .ok [p] ∧ p.transforms = cb.proposal.transforms) ∧
+    payTS (mkResponse core 36 payloads) ptTSi true = .ok cb.tsr ∧
+    payTS (mkResponse core 36 payloads) ptTSr true = .ok cb.tsi ∧
+    respMode (mkResponse core 36 payloads) = cb.mode := by
+  obtain ⟨pre, modeN, ke, p, t1, t2, rfl, hpre, hke, hm, hm01, _, _, h3, h4, h5⟩ := h
+  have hmodeN : ∀ q ∈ modeN, q = mkNotify 0 nUSE_TRANSPORT_MODE [] [] := by
+    intro q hq; rw [hm] at hq; split at hq
+    · simpa using hq
+    · cases hq
+  have hfront : ∀ T, T = ptSA ∨ T = ptTSi ∨ T = ptTSr → ∀ q ∈ pre ++ modeN ++ ke, q.ptype ≠ T := by
+    intro T hT q hq
+    simp only [List.mem_append] at hq
+    rcases hq with (hq | hq) | hq
+    · rcases hT with rfl | rfl | rfl
+      · exact (hpre q hq).1.1
+      · exact (hpre q hq).2.1
+      · exact (hpre q hq).2.2.1
+    · rw [hmodeN q hq]; rcases hT with rfl | rfl | rfl <;> simp [mkNotify, ptNOTIFY, ptSA, ptTSi, ptTSr]
+    · rcases hT with rfl | rfl | rfl
+      · exact (hke q hq).1.1
+      · exact (hke q hq).2.1
+      · exact (hke q hq).2.2.1
+  refine ⟨⟨p, ?_, h3⟩, ?_, ?_, ?_⟩
+  · simp only [paySA, findPayload, payloadsOf, if_true, replyShape_enc]
+    rw [find_first ptSA (pre ++ modeN ++ ke) _ _ rfl (hfront _ (Or.inl rfl))]
+    rfl
+  · simp only [payTS, findPayload, payloadsOf, if_true, replyShape_enc]
+    rw [show pre ++ modeN ++ ke ++ [mkP ptSA (.sa [p]), mkP ptTSi (.ts [t1]), mkP ptTSr (.ts [t2])]
+          = (pre ++ modeN ++ ke ++ [mkP ptSA (.sa [p])]) ++ mkP ptTSi (.ts [t1]) :: [mkP ptTSr (.ts [t2])] by simp]
+    rw [find_first ptTSi _ _ _ rfl]
+    · rw [h5]; rfl
+    · intro q hq
+      rcases List.mem_append.mp hq with hq | hq
+      · exact hfront _ (Or.inr (Or.inl rfl)) q hq
+      · simp only [List.mem_singleton] at hq; subst hq; simp [mkP, ptSA, ptTSi]
+  · simp only [payTS, findPayload, payloadsOf, if_true, replyShape_enc]
+    rw [show pre ++ modeN ++ ke ++ [mkP ptSA (.sa [p]), mkP ptTSi (.ts [t1]), mkP ptTSr (.ts [t2])]
+          = (pre ++ modeN ++ ke ++ [mkP ptSA (.sa [p]), mkP ptTSi (.ts [t1])]) ++ mkP ptTSr (.ts [t2]) :: [] by simp]
+    rw [find_first ptTSr _ _ _ rfl]
+    · rw [h4]; rfl
+    · intro q hq
+      rcases List.mem_append.mp hq with hq | hq
+      · exact hfront _ (Or.inr (Or.inr rfl)) q hq
+      · simp only [List.mem_cons, List.mem_nil_iff, or_false] at hq
+        rcases hq with rfl | rfl <;> simp [mkP, ptSA, ptTSi, ptTSr]
+  · -- the transport-mode notification is there exactly when the record is in transport mode
+    have hnot : ∀ q ∈ pre ++ ke ++ [mkP ptSA (.sa [p]), mkP ptTSi (.ts [t1]), mkP ptTSr (.ts [t2])],
+        notifyPick nUSE_TRANSPORT_MODE q = none := by
+      intro q hq
+      simp only [List.mem_append, List.mem_cons, List.mem_nil_iff, or_false] at hq
+      have hplain : Plain q → notifyPick nUSE_TRANSPORT_MODE q = none := fun hp => by
+        unfold notifyPick
+        by_cases hpt : q.ptype = ptNOTIFY
+        · rw [if_pos hpt]
+          cases hb : q.body with
+          | notify a t b c => simp only; rw [if_neg ((hp.2.2.2) a t b c hb)]
+          | _ => rfl
+        · rw [if_neg hpt]
+      rcases hq with (hq | hq) | rfl | rfl | rfl
+      · exact hplain (hpre q hq)
+      · exact hplain (hke q hq)
+      · simp [notifyPick, mkP, ptSA, ptNOTIFY]
+      · simp [notifyPick, mkP, ptTSi, ptNOTIFY]
+      · simp [notifyPick, mkP, ptTSr, ptNOTIFY]
+    have hperm : getNotifies (mkResponse core 36 (pre ++ modeN ++ ke ++ [mkP ptSA (.sa [p]), mkP ptTSi (.ts [t1]), mkP ptTSr (.ts [t2])]))
+        nUSE_TRANSPORT_MODE true = if cb.mode = 0 then [(0, [], [])] else [] := by
+      rw [getNotifies_eq]
+      simp only [payloadsOf, if_true, replyShape_enc, List.filterMap_append]
+      have e1 : pre.filterMap (notifyPick nUSE_TRANSPORT_MODE) = [] :=
+        List.filterMap_eq_nil_iff.mpr (fun q hq => hnot q (by simp only [List.mem_append]; exact Or.inl (Or.inl hq)))
+      have e2 : ke.filterMap (notifyPick nUSE_TRANSPORT_MODE) = [] :=
+        List.filterMap_eq_nil_iff.mpr (fun q hq => hnot q (by simp only [List.mem_append]; exact Or.inl (Or.inr hq)))
+      have e3 : [mkP ptSA (.sa [p]), mkP ptTSi (.ts [t1]), mkP ptTSr (.ts [t2])].filterMap (notifyPick nUSE_TRANSPORT_MODE) = [] :=
+        List.filterMap_eq_nil_iff.mpr (fun q hq => hnot q (by simp only [List.mem_append]; exact Or.inr hq))
+      rw [e1, e2, e3, hm]
+      split <;> simp [notifyPick, mkNotify, ptNOTIFY]
+    unfold respMode
+    rw [hperm]
+    rcases hm01 with h | h <;> simp [h]
+
 theorem errReply_paySA (core : SaCore) (payloads : List Payload) (h : ErrReply payloads) (l : List Proposal) :
     paySA (mkResponse core 36 payloads) true ≠ .ok l := by
   obtain ⟨n, a, t, b, c, rfl, hb⟩ := h
@@ -827,6 +979,7 @@ structure Half (ka kb : List Child) : Prop where
   nda : (ka.map Child.inSpi).Nodup
   protoa : ∀ c ∈ ka, c.proposal.proto = 2 ∨ c.proposal.proto = 3
   protob : ∀ c ∈ kb, c.proposal.proto = 2 ∨ c.proposal.proto = 3
+  paired : Paired ka kb
 
 theorem outSpi_mem_of_mirror {ka kb : List Child} (h : Mirror ka kb) (x : Bytes) :
     x ∈ kb.map Child.outSpi ↔ x ∈ ka.map Child.inSpi := by
@@ -897,7 +1050,7 @@ structure Done (a b : HSt) : Prop where
 theorem Half.remove {ka kb : List Child} (h : Half ka kb) (ca cb : Child) (ha : ca ∈ ka) (hb : cb ∈ kb) (hv : ca.view = cb.peerView) :
     Half (removeKid ka ca) (removeKid kb cb) :=
   ⟨h.mirror.remove (view_nodup_of_inSpi h.nda) ca cb ha hb hv, removeKid_nodup _ _ h.nda,
-   fun e he => h.protoa e (mem_of_mem_removeKid he), fun e he => h.protob e (mem_of_mem_removeKid he)⟩
+   fun e he => h.protoa e (mem_of_mem_removeKid he), fun e he => h.protob e (mem_of_mem_removeKid he), h.paired.remove _ _⟩
 
 /-- **the delete step**: `a` waits for the answer to its DELETE for `d`.  Either `d` is one of its CHILD_SAs and the ends agree, or
     `d` is a record `a` never tracked (the CHILD_SA it could not accept) and `b` has at most one CHILD_SA more than `a` knows of: the
@@ -981,9 +1134,10 @@ theorem responseHandler_36 (now : Nat) (core : SaCore) (l : List Payload) :
   simp [responseHandler, mkResponse]
 
 theorem Half.append {ka kb : List Child} (h : Half ka kb) (ca cb : Child) (hv : ca.view = cb.peerView)
-    (hfresh : ca.inSpi ∉ ka.map Child.inSpi) (hpa : ca.proposal.proto = 2 ∨ ca.proposal.proto = 3) :
+    (hfresh : ca.inSpi ∉ ka.map Child.inSpi) (hpa : ca.proposal.proto = 2 ∨ ca.proposal.proto = 3)
+    (hr : ca.rich = cb.peerRich) :
     Half (ka ++ [ca]) (kb ++ [cb]) := by
-  refine ⟨?_, ?_, ?_, ?_⟩
+  refine ⟨?_, ?_, ?_, ?_, ?_⟩
   · unfold Mirror; simp only [List.map_append, List.map_cons, List.map_nil, hv]
     exact List.Perm.append_right _ h.mirror
   · rw [List.map_append, List.nodup_append]
@@ -1002,6 +1156,19 @@ theorem Half.append {ka kb : List Child} (h : Half ka kb) (ca cb : Child) (hv : 
       have : e.proposal.proto = ca.proposal.proto := by
         simp only [Child.view, Child.peerView, Prod.mk.injEq] at hv; exact hv.2.2.symm
       rw [this]; exact hpa
+  · intro x hx y hy hxy
+    rcases List.mem_append.mp hx with hx | hx <;> rcases List.mem_append.mp hy with hy | hy
+    · exact h.paired x hx y hy hxy
+    · simp only [List.mem_singleton] at hy; subst hy
+      have : x.inSpi = ca.inSpi := by
+        have := hxy.trans hv.symm
+        simp only [Child.view, Prod.mk.injEq] at this; exact this.1
+      exact absurd (this ▸ List.mem_map_of_mem hx) hfresh
+    · simp only [List.mem_singleton] at hx; subst hx
+      have : y.outSpi = x.inSpi := by
+        simp only [Child.view, Child.peerView, Prod.mk.injEq] at hxy; exact hxy.1.symm
+      exact absurd ((outSpi_mem_of_mirror h.mirror _).mp (this ▸ List.mem_map_of_mem hy)) hfresh
+    · simp only [List.mem_singleton] at hx hy; subst hx; subst hy; exact hr
 
 /-- **the creation / rekey step, to the end of the conversation**: `a` waits (state 11 or 12) for the answer to a CHILD_SA request whose
     only proposal carries the SPI of the record `a` is creating, a value `a` does not use yet.  Whatever the responder decides,
@@ -1042,38 +1209,78 @@ theorem cConverse (now : Nat) : ∀ (fuel : Nat) (a b : HSt) (r : Msg) (c0 : Chi
           | ok resA =>
             have hout := hA.ok a resA a2 rfl ha
             -- the responder's two cases
-            rcases hgr with ⟨cb, hb1, ⟨sa, q, hsa', hq, hcbout, hcbproto⟩, hgood⟩ | ⟨hb1, herr⟩
+            rcases hgr with ⟨cb, hb1, ⟨sa, q, hsa', hq, hcbout, hcbproto⟩, hgood, hshape⟩ | ⟨hb1, herr⟩
             · -- granted
               rw [hsa] at hsa'; cases hsa'
               simp only [List.mem_singleton] at hq; subst hq
               obtain ⟨p', hp'sa, hp'spi, hp'proto⟩ := goodReply_paySA b1.me.core payloads _ _ hgood
               have hnoerr := goodReply_hasErr b1.me.core payloads _ _ hgood
               have hnoke := goodReply_notifies b1.me.core payloads _ _ hgood nINVALID_KE_PAYLOAD (by decide)
+              obtain ⟨⟨pt, hptsa, hpttr⟩, hrtsi, hrtsr, hrmode⟩ := replyShape_read b1.me.core payloads cb hshape
+              rw [hp'sa] at hptsa; cases hptsa
               have hb1k : b1.me.ext.kids = b.me.ext.kids ++ [cb] := by rw [hb1]; rfl
               have hb1s : b1.me.core.st = stESTABLISHED := by rw [hb1]; exact stb
               rcases hout with ⟨_, _, h3⟩ | ⟨h1, _, hcre⟩ | ⟨z, old, _, hcre, hprev, hrk, hany, h1, h2⟩ | ⟨_, h1, h2⟩ | ⟨r2, hke, _⟩
               · rw [hnoerr] at h3; cases h3
               · -- created
                 subst h1; dsimp only at hconv; cases hconv
-                obtain ⟨p'', rest, child, hp''sa, hcin, hcout, hcprop, hz⟩ := hcre
+                obtain ⟨p'', rest, child, hp''sa, hcin, hcout, hcprop, ⟨t1, r1, t2, r2, ht1, ht2, hctsi, hctsr, hcmode⟩, hz⟩ := hcre
                 rw [hp'sa] at hp''sa; cases hp''sa
                 have hv : child.view = cb.peerView := by
                   simp only [Child.view, Child.peerView, Prod.mk.injEq]
                   exact ⟨by rw [hcin, hcbout, hspi], by rw [hcout, hp'spi], by rw [hcprop, hp'proto]⟩
+                have hrich : child.rich = cb.peerRich := by
+                  rw [hrtsi] at ht1; rw [hrtsr] at ht2
+                  simp only [Except.ok.injEq] at ht1 ht2
+                  have e1 : cb.tsr = [t1] := by
+                    cases hl : cb.tsr with
+                    | nil => rw [hl] at ht1; cases ht1
+                    | cons x xs =>
+                      rw [hl] at ht1; cases ht1
+                      obtain ⟨_, _, _, _, _, _, _, _, _, _, _, _, _, _, _, h5⟩ := hshape
+                      rw [hl] at h5; cases h5; rfl
+                  have e2 : cb.tsi = [t2] := by
+                    cases hl : cb.tsi with
+                    | nil => rw [hl] at ht2; cases ht2
+                    | cons x xs =>
+                      rw [hl] at ht2; cases ht2
+                      obtain ⟨_, _, _, _, _, _, _, _, _, _, _, _, _, _, h4, _⟩ := hshape
+                      rw [hl] at h4; cases h4; rfl
+                  simp only [Child.rich, Child.peerRich, Prod.mk.injEq]
+                  exact ⟨by rw [hcprop, hpttr], by rw [hcmode, hrmode], by rw [hctsi, e1], by rw [hctsr, e2]⟩
                 refine ⟨by rw [hz]; rfl, hb1s, ?_⟩
                 rw [hz, hb1k]
-                exact half.append child cb hv (by rw [hcin]; exact hfresh) (by rw [hcprop, hp'proto, hcbproto]; exact hp23)
+                exact half.append child cb hv (by rw [hcin]; exact hfresh) (by rw [hcprop, hp'proto, hcbproto]; exact hp23) hrich
               · -- created, and the replaced CHILD_SA is deleted next
                 subst h1; dsimp only at hconv
-                obtain ⟨p'', rest, child, hp''sa, hcin, hcout, hcprop, hz⟩ := hcre
+                obtain ⟨p'', rest, child, hp''sa, hcin, hcout, hcprop, ⟨t1, r1, t2, r2, ht1, ht2, hctsi, hctsr, hcmode⟩, hz⟩ := hcre
                 rw [hp'sa] at hp''sa; cases hp''sa
                 have hv : child.view = cb.peerView := by
                   simp only [Child.view, Child.peerView, Prod.mk.injEq]
                   exact ⟨by rw [hcin, hcbout, hspi], by rw [hcout, hp'spi], by rw [hcprop, hp'proto]⟩
+                have hrich : child.rich = cb.peerRich := by
+                  rw [hrtsi] at ht1; rw [hrtsr] at ht2
+                  simp only [Except.ok.injEq] at ht1 ht2
+                  have e1 : cb.tsr = [t1] := by
+                    cases hl : cb.tsr with
+                    | nil => rw [hl] at ht1; cases ht1
+                    | cons x xs =>
+                      rw [hl] at ht1; cases ht1
+                      obtain ⟨_, _, _, _, _, _, _, _, _, _, _, _, _, _, _, h5⟩ := hshape
+                      rw [hl] at h5; cases h5; rfl
+                  have e2 : cb.tsi = [t2] := by
+                    cases hl : cb.tsi with
+                    | nil => rw [hl] at ht2; cases ht2
+                    | cons x xs =>
+                      rw [hl] at ht2; cases ht2
+                      obtain ⟨_, _, _, _, _, _, _, _, _, _, _, _, _, _, h4, _⟩ := hshape
+                      rw [hl] at h4; cases h4; rfl
+                  simp only [Child.rich, Child.peerRich, Prod.mk.injEq]
+                  exact ⟨by rw [hcprop, hpttr], by rw [hcmode, hrmode], by rw [hctsi, e1], by rw [hctsr, e2]⟩
                 have hzk : z.ext.kids = a.me.ext.kids ++ [child] := by rw [hz]; rfl
                 have hhalf : Half z.ext.kids b1.me.ext.kids := by
                   rw [hzk, hb1k]
-                  exact half.append child cb hv (by rw [hcin]; exact hfresh) (by rw [hcprop, hp'proto, hcbproto]; exact hp23)
+                  exact half.append child cb hv (by rw [hcin]; exact hfresh) (by rw [hcprop, hp'proto, hcbproto]; exact hp23) hrich
                 have hold : old ∈ z.ext.kids := by
                   rcases hst with h | ⟨_, old', ho1, ho2⟩
                   · rw [h] at hprev; cases hprev
@@ -1241,10 +1448,10 @@ def delExchange (now fuel : Nat) (d : Child) (a b : HSt) : Option (HSt × HSt) :
   | (.ok r, a1) => converse now fuel r a1 b
   | _ => none
 
-theorem Agree.done {a b : HSt} (h : Agree a b) : Done a b := ⟨h.sta, h.stb, h.mirror, h.nda, h.protoa, h.protob⟩
+theorem Agree.done {a b : HSt} (h : Agree a b) : Done a b := ⟨h.sta, h.stb, h.mirror, h.nda, h.protoa, h.protob, h.paired⟩
 
 theorem Done.agree {a b : HSt} (h : Done a b) (hnd : (b.me.ext.kids.map Child.inSpi).Nodup) : Agree a b :=
-  ⟨h.sta, h.stb, h.half.mirror, h.half.nda, hnd, h.half.protoa, h.half.protob⟩
+  ⟨h.sta, h.stb, h.half.mirror, h.half.nda, hnd, h.half.protoa, h.half.protob, h.half.paired⟩
 
 /-- creation and rekey: whatever either end decides, if no handler raises and the conversation ends, the ends are ESTABLISHED and agree -/
 theorem childExchange_done (now fuel : Nat) (c0 : Child) (rekeyed : Option Child) (a b a' b' : HSt) (h : Done a b)
